@@ -108,6 +108,17 @@ def main(tier, replay):
                                     "steps": [{"k": "save", "n": "c1", "up": "up0", "v": 1}, {"k": "save", "n": "c2", "up": "up2", "v": 2}, {"k": "save", "n": "c3", "up": "up0", "v": 3},
                                               {"k": "sleep", "ms": 150}, {"k": "holdafterdelete"}, opstep, {"k": "sleep", "ms": 200}] + tail +
                                              [{"k": "sleep", "ms": 150}, {"k": "obs"}, {"k": "load", "shard": 0}, {"k": "load", "shard": 1}]})
+            # directed: a graceful stop with SEVERAL pending conditions while the API fails one write (any of them: the flush order is not fixed);
+            # the stop is retried the way the server does it (stopLimitStoreWithRetry) until it reports success - then everything must be there
+            for name in ("c1", "c2", "c3"):
+                for verb in ("create", "update"):
+                    for fault in ("transient", "conflict"):
+                        k += 1
+                        pre = [{"k": "save", "n": "c1", "up": "up0", "v": 1}, {"k": "save", "n": "c2", "up": "up2", "v": 2}, {"k": "save", "n": "c3", "up": "up0", "v": 3}]
+                        if verb == "update":     # the conditions exist already: the flush updates them
+                            pre += [{"k": "flush"}, {"k": "save", "n": "c1", "up": "up0", "v": 11}, {"k": "save", "n": "c2", "up": "up2", "v": 12}, {"k": "save", "n": "c3", "up": "up0", "v": 13}]
+                        scs.append({"id": k, "shards": 2, "shard": 0, "syncPeriodMs": 3600000, "realtime": True,
+                                    "steps": pre + [{"k": "stop", "faults": ["%s/%s=%s" % (verb, name, fault)]}, {"k": "stop"}, {"k": "stop"}, {"k": "obs"}, {"k": "load", "shard": 0}, {"k": "load", "shard": 1}]})
             # races under the cooperative scheduler (instrumented store): an operation against a flush / a stop / another operation, single-preemption
             # sweep over the first synchronisation operations of either side, in both orders.  The windows between two critical sections of ONE
             # operation (e.g. "API delete done, own copy not yet dropped") are not at API-call boundaries: only scheduling at lock operations reaches them
